@@ -75,6 +75,8 @@ def run(ctx) -> None:
   ctx.rule('R4', 'suggested parameters derive from a clipping decoder or from values enumerated from the config', 10)
   ctx.rule('R5', 'scaler unmap decodes through to_parameter_values; eagle value producers clamp / snap', 3)
   ctx.rule('R6', 'default seeding goes through the validating builder with exactly computed values; midpoint is the mean of the bounds', 4)
+  ctx.rule('R9', 'a designer that writes literal category values (\'True\'/\'False\') refuses, at construction, every parameter '
+           'that is not declared BOOLEAN', 2)
   ctx.rule('R8', 'grid values are decoder output or exact enumerations of the config (no unclamped transcendental arithmetic)', 3)
   ctx.import_rules('C12', {'R6'}, 'R7', 'suggestions are produced for the study of the request: the service keeps no policy (and no search space) between requests')
   mi = ctx.index.module_of_file(C15.CORE)
@@ -85,6 +87,7 @@ def run(ctx) -> None:
   r5_eagle(ctx)
   r6_default(ctx)
   r8_grid_values(ctx)
+  r9_literal_values(ctx)
 
 
 class _Relabel:
@@ -423,6 +426,47 @@ def _eagle_value_model(m: FuncInfo):
         return (f'type {T}, bounds ({lo}, {hi}), feasible_values {fv if T in ("DISCRETE", "CATEGORICAL") else "-"}, values {v1!r}/{v2!r}, '
                 f'weight or perturbation {w}: result {got!r}'), rows
   return None, rows
+
+
+# ----------------------------------------------------------------------- R9
+def r9_literal_values(ctx) -> None:
+  """`parameters[p.name] = 'True' if .. else 'False'`: only correct for parameters whose feasible values are exactly those
+  strings, i.e. BOOLEAN external type - the constructor must refuse everything else."""
+  n = 0
+  for f in DESIGNER_FILES:
+    mi = ctx.index.module_of_file(f)
+    for ci in mi.classes.values():
+      lits = []
+      for m in ci.methods.values():
+        for x in ast.walk(m.node):
+          if isinstance(x, ast.Assign) and any(isinstance(t, ast.Subscript) and 'param' in unparse(t.value, 0).lower() for t in x.targets):
+            consts = [c.value for c in ast.walk(x.value) if isinstance(c, ast.Constant) and isinstance(c.value, str)]
+            if consts and not isinstance(x.value, ast.Constant) or (isinstance(x.value, ast.Constant) and isinstance(x.value.value, str)):
+              lits.append((m, x, consts))
+      if not lits:
+        continue
+      n += 1
+      init = ci.methods.get('__init__') or ci.methods.get('__attrs_post_init__')
+      guard = False
+      if init is not None:
+        for t in ast.walk(init.node):
+          if isinstance(t, ast.If) and t.body and isinstance(t.body[-1], ast.Raise):
+            tst, neg = t.test, False
+            while isinstance(tst, ast.UnaryOp) and isinstance(tst.op, ast.Not):
+              tst, neg = tst.operand, not neg
+            if isinstance(tst, ast.Compare) and len(tst.ops) == 1 and isinstance(tst.ops[0], (ast.NotEq, ast.Eq, ast.IsNot, ast.Is)):
+              sides = [dotted(tst.left) or '', dotted(tst.comparators[0]) or '']
+              ne = isinstance(tst.ops[0], (ast.NotEq, ast.IsNot)) != neg
+              if ne and any(x.endswith('.external_type') for x in sides) and any(x.endswith('ExternalType.BOOLEAN') for x in sides):
+                guard = True
+      m, x, consts = lits[0]
+      ctx.check(guard, 'R9', f'{ci.name}: literal values {sorted(set(consts))} only for BOOLEAN parameters', x,
+                'the constructor raises for every parameter whose external type is not BOOLEAN',
+                f'`{unparse(x, 70)}` writes the literal values {sorted(set(consts))}, but the constructor does not refuse parameters that are not '
+                'declared BOOLEAN: for any other two-valued categorical parameter the suggestion carries a value outside its feasible values',
+                construct=f'{ci.name}:literal-values', func=ci.qualname)
+  if n < 2:
+    raise AnalysisError(f'designers writing literal parameter values: {n} found (BOCS and Harmonica on the pinned tree)')
 
 
 # ----------------------------------------------------------------------- R8
